@@ -11,6 +11,7 @@ for g in registry.GROUND:
     t = time.time(); ok, detail = g["fn"](); print(f"ground  {g['name']:40s} {'ok' if ok else 'FAIL'} {time.time()-t:.1f}s {detail[:300]}")
 for b in registry.BOUNDED:
   if b["prop"] == prop and pat in b["name"] and (b["tier"] == "quick" or tier == "thorough"):
-    ctx = registry.Ctx(tier, seed, b["name"]); t = time.time(); b["fn"](ctx)
-    print(f"bounded {b['name']:40s} evals={ctx.evaluations} distinct={len(ctx.nontrivial)} failures={len(ctx.failures)} {time.time()-t:.1f}s")
+    known = json.load(open(os.path.join(os.path.dirname(os.path.dirname(os.path.abspath(__file__))), "known_findings.json")))
+    ctx = registry.Ctx(tier, seed, b["name"], prop=b["prop"], known=known); t = time.time(); b["fn"](ctx)
+    print(f"bounded {b['name']:40s} evals={ctx.evaluations} distinct={len(ctx.nontrivial)} failures={len(ctx.failures)} known={ {k: v[0] for k, v in ctx.known_hits.items()} } {time.time()-t:.1f}s")
     for f in ctx.failures[:5]: print("   FAIL", json.dumps(f, default=str)[:600])
